@@ -292,6 +292,36 @@ class Effects:
                         nd.append(name)
                     if any(re.search(p, name) for p in GSTATE_CALLS):
                         gs.append(name)
+            # mutation of a module-level object (a dict / list cache keeps state between calls)
+            locals_ = set(params)
+            for s in walk_no_nested(f.node):
+                for t in (s.targets if isinstance(s, ast.Assign) else [s.target] if isinstance(s, (ast.AugAssign, ast.AnnAssign, ast.For)) else []):
+                    for x in (t.elts if isinstance(t, (ast.Tuple, ast.List)) else [t]):
+                        if isinstance(x, ast.Name):
+                            locals_.add(x.id)
+                if isinstance(s, (ast.With,)):
+                    for it in s.items:
+                        if isinstance(it.optional_vars, ast.Name):
+                            locals_.add(it.optional_vars.id)
+                if isinstance(s, ast.NamedExpr) and isinstance(s.target, ast.Name):
+                    locals_.add(s.target.id)
+            modtop = f.module.top
+            def is_module_obj(name):
+                if name in locals_ or name not in modtop:
+                    return False
+                node = modtop[name]
+                return isinstance(node, (ast.Assign, ast.AnnAssign)) and isinstance(getattr(node, "value", None), (ast.Dict, ast.List, ast.Set, ast.Call, ast.ListComp, ast.DictComp))
+            for s in walk_no_nested(f.node):
+                tg = s.targets if isinstance(s, (ast.Assign, ast.Delete)) else [s.target] if isinstance(s, ast.AugAssign) else []
+                for t in tg:
+                    if isinstance(t, (ast.Subscript, ast.Attribute)):
+                        r = root_name(t)
+                        if r and is_module_obj(r):
+                            gs.append(f"module-level `{r}` (stored into)")
+                if isinstance(s, ast.Call) and isinstance(s.func, ast.Attribute) and s.func.attr in MUTATORS:
+                    r = root_name(s.func.value)
+                    if r and is_module_obj(r) and isinstance(s.func.value, ast.Name):
+                        gs.append(f"module-level `{r}`.{s.func.attr}()")
             for s in walk_no_nested(f.node):
                 if isinstance(s, ast.Global):
                     gs.append("global " + ",".join(s.names))
